@@ -244,6 +244,18 @@ impl<'w> Ctx<'w> {
             Expr::Call(c) => self.call(c),
             Expr::MethodCall(m) => self.method(m),
             Expr::Tuple(t) if t.elems.is_empty() => Ok(e("()", Ty::Unit)),
+            Expr::Tuple(t) => {
+                let mut parts = vec![];
+                let mut tys = vec![];
+                let mut eff = false;
+                for x in &t.elems {
+                    let v = self.expr(x)?;
+                    eff |= v.eff;
+                    parts.push(v.s);
+                    tys.push(v.ty);
+                }
+                Ok(E { s: format!("({})", parts.join(", ")), ty: Ty::Tuple(tys), eff })
+            }
             Expr::Repeat(r) => {
                 // [0; N]
                 let n = self.expr(&r.len)?;
